@@ -54,6 +54,10 @@ func (req *SrvReq) packRerror(ename string, ecode uint32) {
 	}
 
 	room := len(req.Rc.Buf) - (4 + 1 + 2 + 2 + 4) /* size[4] id[1] tag[2] ename[s] ecode[4] */
+	if *Akaros {
+		room -= len(fmt.Sprintf("%04X ", ecode)) /* PackRerror puts the error number in front of the text */
+	}
+
 	if room < 0 {
 		room = 0
 	}
